@@ -329,4 +329,7 @@ def build():
         "position-taking methods other than cell/_validate_cell_coords: only the syntactic call-site obligation",
     ]
     plan.trusted += ["pyvc AST->SMT translation (cross-checked against CPython)", "z3 5.1.0 (quantified VCs)", "cvc5 1.0.3"]
+    for c_ in plan.targets:
+        if getattr(c_, "search", None) is None and c_.qual.startswith("document:Table.") and getattr(c_, "home", plan) is plan:
+            c_.search = lambda plan_, c: {"custom": "search_coords", "native_module": plan_.native_module}
     return plan
